@@ -7,6 +7,8 @@ import (
 	"io"
 	"log/slog"
 	"os"
+	"sort"
+	"strings"
 
 	"github.com/sanonone/kektordb/verifharness/internal/eng"
 )
@@ -99,7 +101,10 @@ func runBehaviour(p eng.Profile, b behaviour, extraRestarts int, res *engOutput)
 	}
 	defer r.Close()
 	res.Behaviours++
+	r.Raw = map[string][]float32{}
 	prev := r.Observe()
+	prevRaw := r.Raw
+	rawReported := false
 	steps := b.Steps
 	for i := 0; i < extraRestarts; i++ {
 		steps = append(steps, step{Op: map[string]any{"op": "Reopen", "res": "ok", "extra": true}})
@@ -125,7 +130,35 @@ func runBehaviour(p eng.Profile, b behaviour, extraRestarts int, res *engOutput)
 			return
 		}
 		cur := r.Observe()
+		curRaw := r.Raw
 		opName, _ := st.Op["op"].(string)
+		// frame condition of every action of Kektor.tla except the re-encoding ones (VCompress, a restart): the stored
+		// vector of an id the call does not name is UNCHANGED -- checked on the exact values VGet returns, not on tokens
+		if opName != "VCompress" && opName != "Reopen" && opName != "VDeleteCut" && !rawReported {
+			named := map[string]bool{}
+			for _, v := range st.Op {
+				if sv, ok := v.(string); ok {
+					named[sv] = true
+				}
+			}
+			res.Checks++
+			var d []string
+			for k, was := range prevRaw {
+				now, ok := curRaw[k]
+				if !ok || named[k[strings.LastIndex(k, "/")+1:]] {
+					continue
+				}
+				if !sameFloats(was, now) {
+					d = append(d, fmt.Sprintf("raw.%s: VGet returned %v before the call and %v after it", k, was, now))
+				}
+			}
+			if len(d) > 0 {
+				sort.Strings(d)
+				rawReported = true
+				res.Divergences = append(res.Divergences, divergence{ID: b.ID, Step: i, Kind: "untouched_vector_changed", Op: st.Op, Diff: d})
+			}
+		}
+		prevRaw = curRaw
 		if want, _ := st.Op["res"].(string); want != "" && want != got && !offModel {
 			res.Divergences = append(res.Divergences, divergence{ID: b.ID, Step: i, Kind: "result_mismatch", Op: st.Op,
 				Detail: fmt.Sprintf("spec says %s, engine returned %s (%s)", want, got, r.LastErr)})
@@ -240,4 +273,16 @@ func edgesToDead(obs map[string]any, dead map[string]float64) []string {
 		}
 	}
 	return out
+}
+
+func sameFloats(a, b []float32) bool {
+	if len(a) != len(b) {
+		return false
+	}
+	for i := range a {
+		if a[i] != b[i] && !(a[i] != a[i] && b[i] != b[i]) {
+			return false
+		}
+	}
+	return true
 }
